@@ -137,6 +137,10 @@ def faults(answer, plain, step=1, layouts=60):
               {'matches': answer['matches'] * 40}]
     for i, sh in enumerate(shapes):
         out.append(('shape:%d' % i, json.dumps(sh).encode(), 0))
+    # valid JSON nested deeper than the recursion limit of the decoder (lists, objects)
+    out.append(('shape:deep-list', b'{"matches": ' + b'[' * 5000 + b']' * 5000 + b'}', 0))
+    out.append(('shape:deep-object', b'{"matches": [' + b'{"a":' * 3000 + b'1' + b'}' * 3000 + b']}', 0))
+    out.append(('shape:deep-root', b'[' * 20000 + b']' * 20000, 0))
     raw = json.dumps(answer, ensure_ascii=False).encode('utf-8')
     raw2 = json.dumps(dict(answer, matches=answer['matches'][:2] + [dict(answer['matches'][1], message='äöü𝔸')]),
                       ensure_ascii=False).encode('utf-8')
@@ -235,7 +239,7 @@ class C15(core.Check):
             for c in allc:
                 by.setdefault(c[3], []).append(c)
             pick = []
-            share = {'delete': 160, 'type': 500, 'value': 200, 'string': 320, 'shape': 80, 'truncate': 260,
+            share = {'delete': 160, 'type': 500, 'value': 200, 'string': 320, 'shape': 140, 'truncate': 260,
                      'truncate-utf8': 120, 'garbage': 40, 'exit': 8, 'valid': 16, 'command-missing': 8, 'layout': 400, 'surrogate': 300}
             for k, lst in sorted(by.items()):
                 rnd.shuffle(lst)
